@@ -379,7 +379,8 @@ def run(ctx):
     all_in, all_out = [], []
     for tag, fn in ([('bound-%d' % b, (lambda b=b: queued_payload_bound(ctx, rng, b))) for b in (2048, 5000)] +
                     [('bound-taken-%d' % b, (lambda b=b: queued_payload_bound(ctx, rng, b, True))) for b in (2048, 5000)] +
-                    [('burst', lambda: tg.burst_in_one_read(ctx, rng, 'C09', 120, bufsize=300, latency=True))]):
+                    [('burst-%d' % n, (lambda n=n, b=b: tg.burst_in_one_read(ctx, rng, 'C09', n, bufsize=b, latency=True)))
+                     for n, b in ((120, 300), (1200, 3500))]):
         ins, outs = fn()
         all_in.append(ins)
         all_out.append(outs)
